@@ -64,6 +64,9 @@ impl Property for C07 {
             Tier::Thorough => Budget { cases: 120_000, shards: 16, min_len: 24, max_len: 260 },
         }
     }
+    fn fuzz_targets(&self) -> Vec<(&'static str, u64, usize)> {
+        vec![("prop", 300_000, 260)]
+    }
     fn rule(&self) -> String {
         "bytes -> flow Direct/Throttling rule (rate in {0,1,2.5,3,7,10,100,333,1000} per {default,100,1000,10000} ms) or hotspot QPS/Throttling rule (q in {0,1,2,3,7,10,50,100} per 1-3 s, 1-3 values), max queueing in {0,1,10,100,500,2000} ms, two drive modes (Controller::perform_checking without sleep / EntryBuilder::build with virtual sleep), 3-52 requests with batch 1..12 and arrival from a menu (same instant, just before / exactly at / just after the previously scheduled slot and the slot after it, free); oracle = integer-time PacerModel: spacing of scheduled times >= batch*interval/rate - eps, wait <= max + eps, rejection only if rate 0, batch > rate or needed wait > max - eps, must admit if needed wait < max - eps, caller resumes no earlier than its slot (clock after build - scheduled >= -eps); eps 2 ns (flow) / 1 ms (hotspot); non-trivial = >= 1 queued admission, >= 1 queue-overflow rejection and >= 2 consecutive admissions closer than the gap in arrival time; distinct = distinct decoded cases".into()
     }
